@@ -223,6 +223,20 @@ def build_traces(path, tier, seed):
         add({"kind": "cavdp", "dt": enc(dt), "pps": pps2, "W": W, "a": enc_seq(a), "dp": enc_seq(dp), "cav_final": enc(cav_final)},
             {"kind": "cavdp", "n": n, "dt": dt, "pps": pps2, "W": W, "gen": kind, "final": float(dp[-1])})
         # sign reversal / scaling do not apply to the gate; bounds are checked by the spec
+    # standardised CAV of two records of counts whose raw bytes coincide (signed / unsigned of the same width), one after the other
+    for j in range(4 if tier == "quick" else 20):
+        dt = [0.01, 0.02, 0.05, 0.1][j % 4]
+        pps = int(round(1 / dt))
+        n = pps * int(rng.integers(2, 5)) + 1 + int(rng.integers(0, pps))
+        a_, b_ = gen.byte_twins(np.random.default_rng(seed + 900 + j * 4 + int(rng.integers(3))), n)
+        if len(b_) != len(a_):
+            b_ = a_.view(np.uint32).copy() if a_.dtype == np.int32 else a_[::-1].copy()
+        for rec_ in (a_, b_):
+            xf = np.asarray(rec_, dtype=float)
+            dp, pps2, W = cavdp(rec_, dt)
+            cav_final = float(im.calc_cav(eqsig.AccSignal(xf, dt))[-1])
+            add({"kind": "cavdp", "dt": enc(dt), "pps": pps2, "W": W, "a": enc_seq(xf), "dp": enc_seq(dp), "cav_final": enc(cav_final)},
+                {"kind": "cavdp", "n": n, "dt": dt, "pps": pps2, "W": W, "gen": "byte twins (%s after %s)" % (rec_.dtype, a_.dtype), "final": float(dp[-1])})
     write_ndjson(path, recs)
     return meta
 
